@@ -6,13 +6,13 @@ set -u
 patch="$1"; shift
 cd /verif || exit 2
 export GOFLAGS=-mod=mod GOPROXY=off GOSUMDB=off GOTOOLCHAIN=local GOWORK=off
-go build -o bin/mvcheck ./cmd/mvcheck || exit 2
+[ -n "${VERIF_NOBUILD:-}" ] || go build -o bin/mvcheck ./cmd/mvcheck || exit 2
 if ! git -C /repo diff --quiet; then echo "/repo has uncommitted changes; refusing"; exit 2; fi
 if ! git -C /repo apply --check "$patch" 2>/dev/null; then echo "PATCH DOES NOT APPLY to current /repo: $patch"; git -C /repo apply --check "$patch"; exit 3; fi
 git -C /repo apply "$patch"
 props="${*:-all}"
 for p in $props; do
-  bin/mvcheck -property "$p" -no-evidence -repo /repo 2>&1 | grep -E "^FAIL|^ERROR|unknown" | cut -c1-330
+  ${MVCHECK:-bin/mvcheck} -property "$p" -no-evidence -repo /repo 2>&1 | grep -E "^FAIL|^ERROR|unknown" | cut -c1-330
 done
 git -C /repo checkout -- .
 echo "(reverted)"
